@@ -813,6 +813,29 @@ func ruleRD2(c *Ctx) {
 				elem[k] = true
 			}
 		}
+		// the walk over the dependencies may sit in a helper of its own (areTaskDepsComplete, hasOpenDeps): what the
+		// sibling calls, other than the other named predicates, belongs to it
+		siblings := map[*ssa.Function]bool{isReady: true, isBlocked: true, iec: true, aedc: true}
+		if gb := c.ErgoFn("getBlockers"); gb != nil {
+			siblings[gb] = true
+		}
+		seenH := map[*ssa.Function]bool{f: true}
+		var addHelpers func(g *ssa.Function, d int)
+		addHelpers = func(g *ssa.Function, d int) {
+			for _, call := range callsIn(g) {
+				h := calleeOf(call.Common())
+				if h == nil || seenH[h] || siblings[h] || !c.InModule(h) || h.Blocks == nil || d > 2 {
+					continue
+				}
+				seenH[h] = true
+				e2, _ := c.elemStateConsts(h)
+				for k := range e2 {
+					elem[k] = true
+				}
+				addHelpers(h, d+1)
+			}
+		}
+		addHelpers(f, 0)
 		c.check(sameSet(elem, "done", "canceled"), c.Name(f), "b:satisfied-set", c.FnPos(f), "dependency-satisfied states are exactly {done, canceled}",
 			"the states that satisfy a dependency here are "+setString(elem)+"; the definition says {canceled, done}: ready/blocked/blocker views disagree")
 	}
